@@ -105,6 +105,26 @@ func c21ReplParts(op string) (mark, pat, repl string, hasRepl bool) {
 	return
 }
 
+// c21ReplValue is the text a replacement word stands for: the expansion of
+// an argument word of c21ArgWords, the text itself for the literal words.
+func c21ReplValue(repl string) string {
+	if v, ok := c21ArgWordVal(repl); ok {
+		return v
+	}
+	return repl
+}
+
+// c21FieldsText joins the fields of a result "<status>:<count><f1><f2>.."
+// with single blanks (fields of the cases this is used for hold no '<' '>').
+func c21FieldsText(r string) string {
+	_, rest, _ := strings.Cut(r, ":")
+	i := strings.IndexByte(rest, '<')
+	if i < 0 {
+		return ""
+	}
+	return strings.Join(strings.Fields(strings.NewReplacer("><", " ", "<", "", ">", "").Replace(rest[i:])), " ")
+}
+
 func c21OnlyStars(p string) bool { return p != "" && strings.Trim(p, "*") == "" }
 
 // c21IndirValue is the text the indirection ${!tgt} goes through.
@@ -209,8 +229,9 @@ func c21Class(t c21Case, sh, bash string) string {
 			return "replace-ampersand-literal"
 		case st.Kind == "assoc" && info.List && !t.Q && len(st.Map) > 1 && shOK && bashOK:
 			return "assoc-unquoted-list-op-on-joined-string"
-		case !info.List && !info.Set && c21OnlyStars(pat) && repl != "" && mark != "#" && mark != "%" &&
-			(bash == "0:0" || bash == "0:1<>") && strings.Contains(sh, "<"+repl+">"):
+		case !info.List && !info.Set && c21OnlyStars(pat) && c21ReplValue(repl) != "" && mark != "#" && mark != "%" &&
+			(bash == "0:0" || bash == "0:1<>") && c21FieldsText(sh) == strings.Join(strings.Fields(c21ReplValue(repl)), " "):
+			// sh's fields are the replacement's text (split at blanks when unquoted)
 			return "replace-on-unset-inserts-replacement"
 		}
 
